@@ -170,6 +170,16 @@ econf_newKeyFile_with_options(econf_file **result, const char *options) {
       continue;
     }
 
+    if (strcmp(o_opt, "JOIN_SAME_ENTRIES=0") == 0) {
+      (*result)->join_same_entries = false;
+      continue;
+    }
+
+    if (strcmp(o_opt, "PYTHON_STYLE=0") == 0) {
+      (*result)->python_style = false;
+      continue;
+    }
+
     if (strncmp(o_opt, PARSING_DIRS, strlen(PARSING_DIRS)) == 0) {
       /* a repeated item replaces the former one */
       econf_freeArray((*result)->parse_dirs);
